@@ -97,7 +97,8 @@ class World:
             return ['exc', err.args[0], 'Key']
         if isinstance(err, (KeyErr, IndexErr)) or (type(err) in (AssertionError, AssertSub) and err.args
                                                      and isinstance(err.args[0], int)):
-            cls = 'Key' if isinstance(err, KeyErr) else 'Index' if isinstance(err, IndexErr) else 'Assert'
+            cls = 'Key' if isinstance(err, KeyErr) else 'Index' if isinstance(err, IndexErr) else \
+                'AssertSub' if type(err) is AssertSub else 'Assert'
             return ['exc', err.args[0], cls]
         if isinstance(err, Concurrent):
             return ['conc', [self.enc(c) for c in err.children]]
